@@ -46,7 +46,7 @@ impl Acc {
     pub fn sample(&mut self, class: &str, v: Value) {
         let e = self.samples.entry(class.to_string()).or_default();
         if e.len() < SAMPLES_PER_CLASS {
-            e.push(v);
+            e.push(well_formed_json(v));
         }
     }
     pub fn exclude(&mut self, why: &str) {
@@ -56,7 +56,8 @@ impl Acc {
         *self.extra.entry(key.to_string()).or_insert(0) += n;
     }
     pub fn violation(&mut self, what: String, replay: Value) {
-        self.violations.push(Violation { what, replay });
+        // what a broken decoder returned may be a String that is not text: nothing of it may reach the report as such
+        self.violations.push(Violation { what: well_formed(&what), replay: well_formed_json(replay) });
     }
     pub fn merge(&mut self, o: Acc) {
         self.evaluations += o.evaluations;
@@ -141,4 +142,18 @@ pub fn evidence_json(meta: &EvidenceMeta, acc: &Acc) -> Value {
         "wall_s": meta.wall_s,
         "violations": acc.violations.len(),
     })
+}
+
+/// a copy that is guaranteed to be UTF-8 (invalid sequences become U+FFFD)
+pub fn well_formed(s: &str) -> String {
+    String::from_utf8_lossy(s.as_bytes()).into_owned()
+}
+
+pub fn well_formed_json(v: Value) -> Value {
+    match v {
+        Value::String(s) => Value::String(well_formed(&s)),
+        Value::Array(xs) => Value::Array(xs.into_iter().map(well_formed_json).collect()),
+        Value::Object(m) => Value::Object(m.into_iter().map(|(k, x)| (well_formed(&k), well_formed_json(x))).collect()),
+        other => other,
+    }
 }
